@@ -187,12 +187,10 @@ def finish (acc : Acc) : Validation :=
 def Table.validate (t : Table) (localAsn : Nat) (net : Net) (path : Option (List Seg)) :
     Option Validation :=
   let m := t.trie net.fam
-  if m.isEmpty then none
-  else
-    let asn := routeOrigin localAsn path
-    let maxBits := min (net.addr.length * 8) 255
-    let acc := (List.range (min net.len maxBits + 1)).foldl (validateStep m net asn) {}
-    some (finish acc)
+  let asn := routeOrigin localAsn path
+  let maxBits := min (net.addr.length * 8) 255
+  let acc := (List.range (min net.len maxBits + 1)).foldl (validateStep m net asn) {}
+  some (finish acc)
 
 /-! ### mutation -/
 
@@ -246,7 +244,7 @@ inductive Op where
   | val (net : Net) (path : Option (List Seg))
   | iter (f : Fam)
   /-- the daemon path: import policy `rpki st ⇒ reject`, `insert_route`, `collect_paths`, API conversion -/
-  | display (st : VState) (net : Net) (path : Option (List Seg))
+  | display (loc : Bool) (st : VState) (net : Net) (path : Option (List Seg))
   deriving Repr, Inhabited
 
 inductive Ob where
@@ -257,11 +255,12 @@ inductive Ob where
   deriving DecidableEq, Repr, Inhabited
 
 structure Case where
-  localAsn : Nat
+  localAsn : Nat        -- `Source.local_asn` of the peer session the routes come from
+  globalAsn : Nat       -- `RpkiTable.local_asn`: the speaker's own AS, used for `Source::local()` routes
   ops : List Op
   deriving Repr, Inhabited
 
-def step (localAsn : Nat) (t : Table) : Op → Out (Table × Option Ob)
+def step (localAsn globalAsn : Nat) (t : Table) : Op → Out (Table × Option Ob)
   | .ins s net ml asn => .ok (t.insert net ⟨ml, asn, s⟩, none)
   | .rem s net ml asn => .ok (t.remove net ⟨ml, asn, s⟩, none)
   | .drop s => .ok (t.dropSource s, none)
@@ -274,26 +273,27 @@ def step (localAsn : Nat) (t : Table) : Op → Out (Table × Option Ob)
       match t.iter f with
       | .ok l => .ok (t, some (.it l))
       | .panic => .panic
-  | .display st net path =>
+  | .display loc st net path =>
       -- `collect_paths` phase 2 and `Condition::Rpki` both call `validate`; `rpki_validation_to_api`
       -- maps state and reason one to one; the statement rejects iff the state is the configured one
-      match t.validate localAsn net path with
+      -- `validate` takes the speaker's own AS for a locally originated route, the session's otherwise
+      match t.validate (if loc then globalAsn else localAsn) net path with
       | none => .ok (t, some (.api none false))
       | some r => .ok (t, some (.api (some (r.state, r.reason)) (decide (r.state = st))))
 
-def runFrom (localAsn : Nat) : Table → List Op → Out (Table × List Ob)
+def runFrom (localAsn globalAsn : Nat) : Table → List Op → Out (Table × List Ob)
   | t, [] => .ok (t, [])
   | t, op :: ops =>
-      match step localAsn t op with
+      match step localAsn globalAsn t op with
       | .panic => .panic
       | .ok (t', o) =>
-          match runFrom localAsn t' ops with
+          match runFrom localAsn globalAsn t' ops with
           | .panic => .panic
           | .ok (t'', os) => .ok (t'', (match o with | some x => [x] | none => []) ++ os)
 
 /-- observation of a case: the list of `val` / `iter` results, or a panic -/
 def run (c : Case) : Out (List Ob) :=
-  match runFrom c.localAsn {} c.ops with
+  match runFrom c.localAsn c.globalAsn {} c.ops with
   | .ok (_, os) => .ok os
   | .panic => .panic
 
